@@ -819,31 +819,110 @@ func NilNamespaceSelectorMatchesByKey(p *core.Program, r *core.Report, rule stri
 	}
 	n := 0
 	bad := ""
-	w := facts.NewWalker(info)
-	w.OnStmt = func(s ast.Stmt, f facts.Formula) {
-		as, ok := s.(*ast.AssignStmt)
-		if !ok || len(as.Lhs) != 1 || len(as.Rhs) != 1 {
-			return
+	isBool := func(t types.Type) bool {
+		b, ok := t.Underlying().(*types.Basic)
+		return ok && b.Kind() == types.Bool
+	}
+	// analyse: in g, every non-constant boolean that is assigned or returned where the rule peer's namespace selector is
+	// known to be nil (the selector being `<x>.NamespaceSelector`, or the parameter sel of a helper that was handed one)
+	var analyse func(g *core.FuncDecl, sel *types.Var, depth int)
+	analyse = func(g *core.FuncDecl, sel *types.Var, depth int) {
+		ginfo := g.Pkg.TypesInfo
+		w := facts.NewWalker(ginfo)
+		under := func(f facts.Formula) bool {
+			for _, a := range facts.Atoms(f) {
+				sa := facts.StripVersions(a)
+				if !strings.HasPrefix(sa, "nil:") || !facts.Entails(f, facts.Atom(a)) {
+					continue
+				}
+				if strings.HasSuffix(sa, ".NamespaceSelector") || (sel != nil && a == "nil:"+w.PathOfVar(sel)) {
+					return true
+				}
+			}
+			return false
 		}
-		// under `<rule peer>.NamespaceSelector == nil`
-		under := false
-		for _, a := range facts.Atoms(f) {
-			if sa := facts.StripVersions(a); strings.HasPrefix(sa, "nil:") && strings.HasSuffix(sa, ".NamespaceSelector") && facts.Entails(f, facts.Atom(a)) {
-				under = true
+		judge := func(e ast.Expr, pos token.Pos) {
+			if _, isConst := core.ConstString(ginfo, e); isConst {
+				return
+			}
+			n++
+			found := false
+			var visit func(x ast.Node, d int)
+			visit = func(x ast.Node, d int) {
+				ast.Inspect(x, func(y ast.Node) bool {
+					switch z := y.(type) {
+					case *ast.SelectorExpr:
+						if f := core.FieldOf(ginfo, z); f != nil && core.RefName(f) == "RepresentativeNsLabelSelector" {
+							found = true
+						}
+					case *ast.CallExpr:
+						if h := p.ByObj[core.Callee(ginfo, z)]; h != nil && d < 2 && h.Pkg.PkgPath == core.PkgK8s {
+							hinfo := ginfo
+							ginfo = h.Pkg.TypesInfo
+							visit(h.Decl.Body, d+1)
+							ginfo = hinfo
+						}
+					}
+					return !found
+				})
+			}
+			visit(e, 0)
+			if !found && bad == "" {
+				bad = fmt.Sprintf("at %s the verdict is %s", p.Pos(pos), core.ExprStr(e))
 			}
 		}
-		if !under {
+		w.OnStmt = func(s ast.Stmt, f facts.Formula) {
+			if w.FuncLitDepth > 0 {
+				return
+			}
+			switch x := s.(type) {
+			case *ast.AssignStmt:
+				if len(x.Lhs) == 1 && len(x.Rhs) == 1 && under(f) {
+					if t := ginfo.TypeOf(x.Lhs[0]); t != nil && isBool(t) {
+						judge(x.Rhs[0], x.Pos())
+					}
+				}
+			case *ast.ReturnStmt:
+				if sel != nil && len(x.Results) >= 1 && under(f) {
+					if t := ginfo.TypeOf(x.Results[0]); t != nil && isBool(t) {
+						judge(x.Results[0], x.Pos())
+					}
+				}
+			}
+		}
+		w.WalkBody(g.Decl.Body, nil)
+		if depth >= 2 {
 			return
 		}
-		if b, isBool := info.TypeOf(as.Lhs[0]).Underlying().(*types.Basic); !isBool || b.Kind() != types.Bool {
-			return
-		}
-		n++
-		if !readsSelector(as.Rhs[0]) && bad == "" {
-			bad = fmt.Sprintf("at %s the verdict is %s", p.Pos(as.Pos()), core.ExprStr(as.Rhs[0]))
-		}
+		// helpers of the package that are handed the namespace selector
+		ast.Inspect(g.Decl.Body, func(nd ast.Node) bool {
+			c, ok := nd.(*ast.CallExpr)
+			if !ok {
+				return true
+			}
+			h := p.ByObj[core.Callee(ginfo, c)]
+			if h == nil || h == g || h.Pkg.PkgPath != core.PkgK8s {
+				return true
+			}
+			hs := h.Obj.Type().(*types.Signature)
+			for i, a := range c.Args {
+				if i >= hs.Params().Len() {
+					break
+				}
+				isSel := strings.HasSuffix(core.ExprStr(ResolveLocal(ginfo, g.Decl.Body, a)), ".NamespaceSelector")
+				if id, isID := ast.Unparen(a).(*ast.Ident); isID && sel != nil && ginfo.ObjectOf(id) == sel {
+					isSel = true
+				}
+				if isSel && strings.HasSuffix(hs.Params().At(i).Type().String(), "LabelSelector") {
+					analyse(h, hs.Params().At(i), depth+1)
+				}
+			}
+			return true
+		})
 	}
-	w.WalkBody(fd.Decl.Body, nil)
+	analyse(fd, nil, 0)
+	_ = info
+	_ = readsSelector
 	r.Check(bad == "" && n >= 1, rule, fd.Key()+": a rule without namespaceSelector matches a representative peer by the peer's namespace selector, as the de-duplication key does", p.Pos(fd.Decl.Pos()), "",
 		"for a rule with a nil namespaceSelector "+bad+", which never consults the representative peer's namespace selector: the representative peer shared (same key) with a rule that names the namespace by its name label has no Namespace when that rule came first, so the nil-selector rule does not select it and its exposure is not reported")
 }
